@@ -310,6 +310,8 @@ class C16:
             st1 = stats_of(hs["N"])
             if st1 is not None and st2 is not None:
                 for t in sorted(set(st1) | set(st2)):
+                    if excluded(t):
+                        continue      # interned strings differ legitimately (the second program meets other injected failures)
                     a, bb = st1.get(t, [0, 0, 0]), st2.get(t, [0, 0, 0])
                     if a[0] != bb[0] or a[2] != bb[2]:
                         res["violation"] = {"class": "dropped-interpreter-leaves-objects", "msg": "I7: %s: %d objects (%d rooted) at quiescence on a first interpreter, %d (%d rooted) on a second one created after the first was dropped" % (
